@@ -882,6 +882,79 @@ def effects_outside(unit, text, pol=True):
     return out
 
 
+_UNKNOWN = object()
+
+
+def const_value(e, env):
+    """the value of expression e when the sub-expressions whose text is a key of env have that constant value; _UNKNOWN
+    when e involves anything else (constant folding over comparisons, boolean operators and integer arithmetic)."""
+    t = ast.unparse(e)
+    if t in env:
+        return env[t]
+    if isinstance(e, ast.Constant):
+        return e.value
+    if isinstance(e, (ast.List, ast.Tuple, ast.Set)):
+        vs = [const_value(x, env) for x in e.elts]
+        return _UNKNOWN if any(v is _UNKNOWN for v in vs) else list(vs)
+    if isinstance(e, ast.UnaryOp):
+        v = const_value(e.operand, env)
+        if v is _UNKNOWN:
+            return v
+        if isinstance(e.op, ast.Not):
+            return not v
+        if isinstance(e.op, ast.USub) and isinstance(v, (int, float)):
+            return -v
+        return _UNKNOWN
+    if isinstance(e, ast.BoolOp):
+        vs = [const_value(v, env) for v in e.values]
+        if isinstance(e.op, ast.And):
+            if any(v is not _UNKNOWN and not v for v in vs):
+                return False
+            return _UNKNOWN if any(v is _UNKNOWN for v in vs) else vs[-1]
+        if any(v is not _UNKNOWN and v for v in vs):
+            return True
+        return _UNKNOWN if any(v is _UNKNOWN for v in vs) else vs[-1]
+    if isinstance(e, ast.Compare):
+        terms = [const_value(x, env) for x in [e.left] + list(e.comparators)]
+        if any(v is _UNKNOWN for v in terms):
+            return _UNKNOWN
+        import operator as _o
+        OPS = {ast.Eq: _o.eq, ast.NotEq: _o.ne, ast.Lt: _o.lt, ast.LtE: _o.le, ast.Gt: _o.gt, ast.GtE: _o.ge,
+               ast.Is: _o.is_, ast.IsNot: _o.is_not, ast.In: lambda a, b: a in b, ast.NotIn: lambda a, b: a not in b}
+        try:
+            return all(OPS[type(op)](l, r) for l, op, r in zip(terms, e.ops, terms[1:]))
+        except (KeyError, TypeError):
+            return _UNKNOWN
+    if isinstance(e, ast.BinOp) and isinstance(e.op, (ast.Add, ast.Sub, ast.Mult)):
+        l, r = const_value(e.left, env), const_value(e.right, env)
+        if isinstance(l, int) and isinstance(r, int):
+            return {ast.Add: l + r, ast.Sub: l - r, ast.Mult: l * r}[type(e.op)]
+    return _UNKNOWN
+
+
+def enum_env(P, enum, var, member):
+    """environment for holds_when: the expression `var` is the member `member` of the enumeration `enum`."""
+    env = {'%s.%s' % (enum, m): m for m in P.enum_members(enum)}
+    env[var] = member
+    return env
+
+
+def holds_when(facts, env):
+    """True when every fact is satisfied once the expressions of env have their constant value, False when one is
+    contradicted, None when one cannot be decided. Facts are (text, polarity) pairs."""
+    res = True
+    for f in facts:
+        try:
+            v = const_value(ast.parse(f[0], mode='eval').body, env)
+        except SyntaxError:
+            v = _UNKNOWN
+        if v is _UNKNOWN:
+            res = None if res else res
+        elif bool(v) != bool(f[1]):
+            return False
+    return res
+
+
 class PathLimit(Exception):
     pass
 
